@@ -115,3 +115,55 @@ Example C12_nonvacuous :
   old_unwrap "1-2-100-104-0-1-4000000000" = None /\
   old_unwrap "7-1-4000000000" = Some ("7", 1, "4000000000").
 Proof. vm_compute. repeat split. Qed.
+
+(* ---- several messages in flight (one or more inbound streams, any timing of decoder and
+   receivers; the table does not change meanwhile).  A message is (session, type, payload, remote
+   peer of its stream).  For every operation list, every list of messages and every channel: what
+   the table's fan-out hands to the channel is what the live subscriptions of the specification
+   entitle it to ... *)
+Theorem C12_fan_refinement : forall ops msgs c,
+  wf_ops ops = true ->
+  recv_c (fst (run_c unwrap c_init ops)) msgs c = recv_a (fst (run_a a_init ops)) msgs c.
+Proof. exact fan_refinement. Qed.
+Print Assumptions C12_fan_refinement.
+
+(* ... the judge used on the per-channel receipts of the implementation accepts the model ... *)
+Theorem C12_fan_judge_model : forall ops msgs chans,
+  wf_ops ops = true ->
+  judge_fan ops msgs chans (map (recv_c (fst (run_c unwrap c_init ops)) msgs) chans) = true.
+Proof. exact fan_judge_model. Qed.
+Print Assumptions C12_fan_judge_model.
+
+(* ... and it accepts receipts iff, for every channel c and every (session, type, payload, peer),
+   c received that message exactly (times it was sent) x (live subscriptions c holds on that
+   session and type) times: every copy with its own payload and sender, nothing of a
+   (session, type) the channel is not subscribed to, nothing lost, nothing twice.  The order of
+   receipt is not constrained. *)
+Theorem C12_fan_judge_sound : forall ops msgs chans impl,
+  judge_fan ops msgs chans impl = true <->
+  Forall2 (fun c got => forall s t p f,
+             count_m (s, t, p, f) got =
+             (count_m (s, t, p, f) msgs * copies c (spec_subscribers s t (fst (run_a a_init ops))))%nat)
+          chans impl.
+Proof. exact fan_judge_sound. Qed.
+Print Assumptions C12_fan_judge_sound.
+
+(* Non-vacuity: two messages of different (session, type) and a repeated one back to back; channel
+   7 holds two subscriptions, channel 8 was cancelled; receipts in another order are accepted, a
+   receipt carrying the other message's content is not. *)
+Example C12_fan_nonvacuous :
+  let ops := [Sub "1-2-100-104-0" 12 5 7; Sub "keygen-17" 0 6 7; Sub "keygen-17" 0 7 9;
+              Sub "keygen-17" 0 8 8; Unsub 3] in
+  let msgs := [("1-2-100-104-0", 12, "a", 1); ("keygen-17", 0, "b", 1); ("keygen-17", 0, "b", 1);
+               ("keygen-1", 0, "c", 2)] in
+  wf_ops ops = true /\
+  map (recv_c (fst (run_c unwrap c_init ops)) msgs) [7; 8; 9] =
+    [[("1-2-100-104-0", 12, "a", 1); ("keygen-17", 0, "b", 1); ("keygen-17", 0, "b", 1)]; [];
+     [("keygen-17", 0, "b", 1); ("keygen-17", 0, "b", 1)]] /\
+  judge_fan ops msgs [7; 8; 9]
+    [[("keygen-17", 0, "b", 1); ("1-2-100-104-0", 12, "a", 1); ("keygen-17", 0, "b", 1)]; [];
+     [("keygen-17", 0, "b", 1); ("keygen-17", 0, "b", 1)]] = true /\
+  judge_fan ops msgs [7; 8; 9]
+    [[("keygen-17", 0, "b", 1); ("keygen-17", 0, "b", 1); ("keygen-17", 0, "b", 1)]; [];
+     [("keygen-17", 0, "b", 1); ("keygen-17", 0, "b", 1)]] = false.
+Proof. vm_compute. repeat split. Qed.
